@@ -23,6 +23,10 @@
 (* negates; a bare regex extends to the next blank, so Render puts "sp"     *)
 (* after it; blanks are optional everywhere else; bare tags contain no      *)
 (* operator character, no quote, no blank and do not start with "/".        *)
+(* ReadText is the reference reader of the TEXT itself (characters): it is  *)
+(* what trace validation uses, so a regex that swallows operator            *)
+(* characters and ill-formed expressions are judged on what was really      *)
+(* given to the parser; Write / WriteSpaced tie it to the token level.      *)
 (***************************************************************************)
 EXTENDS Integers, Sequences
 
@@ -41,13 +45,24 @@ Sym(t)       == Tok(t, "", 0)
 (* universe is fixed here; the driver reports what re.search really says    *)
 (* and the trace module compares (R4).                                      *)
 Universe == {"a", "b", "ab"}
-Bodies   == {"a", "b", "^a", "b$"}
+Bodies   == {"a", "b", "^a", "b$", "b|a$", "a,b", "a&b", "^(a|b)$"}
 Matches(body, tag) ==
     CASE body = "a"  -> tag \in {"a", "ab"}
       [] body = "b"  -> tag \in {"b", "ab"}
       [] body = "^a" -> tag \in {"a", "ab"}
       [] body = "b$" -> tag \in {"b", "ab"}
+      \* bodies with operator characters: a bare regex runs to the next blank, so these are ONE regex
+      [] body = "b|a$"    -> tag \in {"a", "b", "ab"}
+      [] body = "a,b"     -> FALSE
+      [] body = "a&b"     -> FALSE
+      [] body = "^(a|b)$" -> tag \in {"a", "b"}
       [] OTHER -> FALSE
+(* the characters of the names above (TLC cannot take a string apart) *)
+CharsOf(s) ==
+    CASE s = "a" -> <<"a">> [] s = "b" -> <<"b">> [] s = "ab" -> <<"a", "b">>
+      [] s = "^a" -> <<"^", "a">> [] s = "b$" -> <<"b", "$">>
+      [] s = "b|a$" -> <<"b", "|", "a", "$">> [] s = "a,b" -> <<"a", ",", "b">>
+      [] s = "a&b" -> <<"a", "&", "b">> [] s = "^(a|b)$" -> <<"^", "(", "a", "|", "b", ")", "$">>
 
 RECURSIVE Eval(_, _)
 Eval(x, S) ==
@@ -126,6 +141,106 @@ RExpr(ts, i) == LET f == RTerm(ts, i) IN IF f.ok THEN RExprMore(ts, f.pos, f.x) 
 (* a whole expression: everything read *)
 Read(ts) == LET r == RExpr(ts, 1) IN IF r.ok /\ Skip(ts, r.pos) = Len(ts) + 1 THEN r ELSE RFail
 
+(* ---- the concrete syntax: tokens as text, and the reference reader of TEXT *)
+(* Write: tokens as characters, no optional white space ("sp" is a blank).  *)
+QuoteOf(q) == IF q = 1 THEN <<"'">> ELSE IF q = 2 THEN <<"\"">> ELSE <<>>
+WriteTok(tk) ==
+    CASE tk.t = "sp"  -> <<" ">>
+      [] tk.t = "tag" -> QuoteOf(tk.q) \o CharsOf(tk.a) \o QuoteOf(tk.q)
+      [] tk.t = "re"  -> <<"/">> \o QuoteOf(tk.q) \o CharsOf(tk.a) \o QuoteOf(tk.q)
+      [] OTHER -> <<tk.t>>
+RECURSIVE WriteFrom(_, _, _)
+(* spaced: a blank after every token except "!" (nothing may follow "!") *)
+WriteFrom(ts, i, spaced) ==
+    IF i > Len(ts) THEN <<>>
+    ELSE WriteTok(ts[i]) \o (IF spaced /\ ts[i].t # "!" THEN <<" ">> ELSE <<>>) \o WriteFrom(ts, i + 1, spaced)
+Write(ts)       == WriteFrom(ts, 1, FALSE)
+WriteSpaced(ts) == WriteFrom(ts, 1, TRUE)
+
+(* ReadText: the documented grammar read from characters.  A bare word runs *)
+(* to the next blank or one of ) & , | ; a regex body runs to the next      *)
+(* BLANK (it swallows operator characters and parentheses, as the module    *)
+(* documentation says); quoted words end at the closing quote.  Results     *)
+(* [ok, pos, x, why]; why names the reason of a parse error:                *)
+(*   operand-expected, operator-expected, unbalanced-close,                 *)
+(*   unspecified (a word starting with "!" or "(" that is no group, or an   *)
+(*   empty regex: the reading of DESIGN C19 leaves these open; nothing is   *)
+(*   demanded).                                                             *)
+TFail(why)  == [ok |-> FALSE, pos |-> 0, x |-> NoX, why |-> why]
+TOk(p, x)   == [ok |-> TRUE, pos |-> p, x |-> x, why |-> ""]
+ChAt(cs, i) == IF i >= 1 /\ i <= Len(cs) THEN cs[i] ELSE ""                 \* "" = end of text
+Blank(c)    == c \in {" ", "\t", "\n", "\r"}
+OpChar(c)   == c \in {")", "&", ",", "|"}
+RECURSIVE SkipB(_, _)
+SkipB(cs, i) == IF Blank(ChAt(cs, i)) THEN SkipB(cs, i + 1) ELSE i
+(* end of a run from i and its text; bare: stops at operator characters too *)
+RECURSIVE RunFrom(_, _, _, _)
+RunFrom(cs, i, bare, acc) ==
+    LET c == ChAt(cs, i) IN
+    IF c = "" \/ Blank(c) \/ (bare /\ OpChar(c)) THEN [pos |-> i, s |-> acc] ELSE RunFrom(cs, i + 1, bare, acc \o c)
+(* a quoted word starting at the quote cs[i]: at least one character, \q is q; pos 0 = no quoted word here *)
+RECURSIVE QuotedFrom(_, _, _, _, _)
+QuotedFrom(cs, j, q, acc, n) ==
+    LET c == ChAt(cs, j) IN
+    IF c = "" THEN [pos |-> 0, s |-> ""]
+    ELSE IF c = "\\" /\ ChAt(cs, j + 1) = q THEN QuotedFrom(cs, j + 2, q, acc \o q, n + 1)
+    ELSE IF c = q THEN (IF n >= 1 THEN [pos |-> j + 1, s |-> acc] ELSE [pos |-> 0, s |-> ""])
+    ELSE QuotedFrom(cs, j + 1, q, acc \o c, n + 1)
+QuoteKind(c) == IF c = "'" THEN 1 ELSE IF c = "\"" THEN 2 ELSE 0
+WordAt(cs, i, bare) ==            \* quoted word, else a run; [pos, s, q], pos = i when empty
+    LET k == QuoteKind(ChAt(cs, i))
+        w == IF k > 0 THEN QuotedFrom(cs, i + 1, ChAt(cs, i), "", 0) ELSE [pos |-> 0, s |-> ""]
+    IN IF w.pos > 0 THEN [pos |-> w.pos, s |-> w.s, q |-> k]
+       ELSE LET r == RunFrom(cs, i, bare, "") IN [pos |-> r.pos, s |-> r.s, q |-> 0]
+
+RECURSIVE TExpr(_, _), TTerm(_, _), TFactor(_, _), TExprMore(_, _, _), TTermMore(_, _, _)
+TFactor(cs, i0) ==
+    LET i   == SkipB(cs, i0)
+        neg == ChAt(cs, i) = "!"
+        j   == IF neg THEN i + 1 ELSE i                   \* nothing may stand between "!" and its operand
+        c   == ChAt(cs, j)
+        r   == IF c = "" \/ Blank(c) \/ OpChar(c) THEN TFail("operand-expected")
+               ELSE IF c = "!" THEN TFail("unspecified")
+               ELSE IF c = "(" THEN
+                    LET e == TExpr(cs, j + 1) IN
+                    \* a bare tag may itself start with "(" (bare = printable minus blanks minus ")&,|"), so a
+                    \* group that cannot be read as one is, in the shipped grammar, a word "(..." : the
+                    \* documentation does not say which reading is meant -> unspecified, nothing demanded
+                    IF ~e.ok THEN TFail("unspecified")
+                    ELSE IF ChAt(cs, e.pos) = ")" THEN TOk(e.pos + 1, e.x)
+                    ELSE TFail("unspecified")
+               ELSE IF c = "/" THEN
+                    LET w == WordAt(cs, j + 1, FALSE) IN
+                    IF w.pos = j + 1 THEN TFail("unspecified") ELSE TOk(w.pos, Re(w.s, w.q))
+               ELSE LET w == WordAt(cs, j, TRUE) IN TOk(w.pos, Tag(w.s, w.q))
+    IN IF r.ok THEN TOk(SkipB(cs, r.pos), IF neg THEN Not(r.x) ELSE r.x) ELSE r
+(* an operator must be followed by an operand: nothing else could consume it *)
+TTermMore(cs, i, left) ==
+    IF ChAt(cs, i) = "&" THEN
+        LET f == TFactor(cs, i + 1) IN IF f.ok THEN TTermMore(cs, f.pos, And(left, f.x)) ELSE f
+    ELSE TOk(i, left)
+TTerm(cs, i) == LET f == TFactor(cs, i) IN IF f.ok THEN TTermMore(cs, f.pos, f.x) ELSE f
+TExprMore(cs, i, left) ==
+    IF ChAt(cs, i) \in {"|", ","} THEN
+        LET f == TTerm(cs, i + 1) IN IF f.ok THEN TExprMore(cs, f.pos, Or("|", left, f.x)) ELSE f
+    ELSE TOk(i, left)
+TExpr(cs, i) == LET f == TTerm(cs, i) IN IF f.ok THEN TExprMore(cs, f.pos, f.x) ELSE f
+
+ReadText(cs) ==
+    LET r == TExpr(cs, 1) IN
+    IF ~r.ok \/ r.pos = Len(cs) + 1 THEN r
+    ELSE TFail(IF ChAt(cs, r.pos) = ")" THEN "unbalanced-close" ELSE "operator-expected")
+
+(* every regex of x is one whose matches the model knows *)
+RECURSIVE KnownRegexes(_)
+KnownRegexes(x) == (x.k = "re" => x.a \in Bodies) /\ \A i \in DOMAIN x.ts : KnownRegexes(x.ts[i])
+RECURSIVE UsesKind(_, _)
+UsesKind(x, k) == x.k = k \/ \E i \in DOMAIN x.ts : UsesKind(x.ts[i], k)
+RECURSIVE UsesOpRegex(_)
+UsesOpRegex(x) == (x.k = "re" /\ x.a \in {"b|a$", "a,b", "a&b", "^(a|b)$"}) \/ \E i \in DOMAIN x.ts : UsesOpRegex(x.ts[i])
+RECURSIVE UsesQuote(_)
+UsesQuote(x) == (x.k \in {"tag", "re"} /\ x.q > 0) \/ \E i \in DOMAIN x.ts : UsesQuote(x.ts[i])
+
 TokOK(tk) == /\ tk.t \in {"(", ")", "!", "&", "|", ",", "tag", "re", "sp"}
              /\ tk.t = "tag" => tk.a \in Universe /\ tk.q \in 0..2
              /\ tk.t = "re"  => tk.a \in Bodies /\ tk.q \in 0..2
@@ -135,6 +250,11 @@ TokOK(tk) == /\ tk.t \in {"(", ")", "!", "&", "|", ",", "tag", "re", "sp"}
 (* Render wrote gives an expression with the same truth value everywhere    *)
 RenderReadable(x) == Read(Render(x)).ok
 RenderFaithful(x) == \A S \in SUBSET Universe : Eval(Read(Render(x)).x, S) = Eval(x, S)
+(* the text reader agrees with the token reader on everything Render writes, with and without blanks *)
+TextFaithful(x) ==
+    LET a == ReadText(Write(Render(x)))
+        b == ReadText(WriteSpaced(Render(x)))
+    IN a.ok /\ b.ok /\ \A S \in SUBSET Universe : Eval(a.x, S) = Eval(x, S) /\ Eval(b.x, S) = Eval(x, S)
 BooleanAlgebra(x) == \A S \in SUBSET Universe :
     /\ x.k = "not" => Eval(x, S) = ~Eval(x.ts[1], S)
     /\ x.k = "and" => Eval(x, S) = (Eval(x.ts[1], S) /\ Eval(x.ts[2], S))
